@@ -97,12 +97,12 @@ func jtSnips() []jtSnip {
 		`"x":9.007199254740991e15`, `"x":-0.9007199254740991E+16`, `"x":1700000000`, `"x":1`+strings.Repeat("0", 300)+`e-300`, `"x":0.`+strings.Repeat("0", 300)+`1e301`,
 		`"x":123456789.000000000000000000000000000000`, `"x":[1.0,2.00,3e0,4E+0,5e-0,-6.0e0]`, `"x":1`+strings.Repeat("0", 799)+`e-799`, `"x":4503599627370496.0`)
 	add("numx-zero", true, `"x":0`, `"x":-0`, `"x":0.0`, `"x":-0.0`, `"x":0e0`, `"x":0e99999999999999999999`, `"x":-0e-5`, `"x":0.000e+7`, `"x":1e-400`, `"x":-1e-400`, `"x":2.4e-324`,
-		`"x":1e-99999999999999999999`, `"x":-123e-99999999999999999999`, `"x":0.`+strings.Repeat("0", 400)+`1`, `"x":[0,-0,0.0,-0.0,0e5,-0e-5]`,
+		`"x":1e-9999`, `"x":-123e-9999`, `"x":0.000e-99999999999999999999`, `"x":0.`+strings.Repeat("0", 400)+`1`, `"x":[0,-0,0.0,-0.0,0e5,-0e-5]`,
 		// 2^-1075 exactly (a tie: rounds to the even mantissa 0) and just below
 		`"x":`+f64Under5.String()+`e-1075`, `"x":-`+bigPlus(f64Under5, -1)+`e-1075`, `"x":0.`+strings.Repeat("0", 323)+f64Under5.String(),
 		`"x":0.`+strings.Repeat("0", 323)+bigPlus(f64Under5, -1)+strings.Repeat("9", 200))
 	add("numx-range", false, `"x":1e400`, `"x":-1e400`, `"x":1.8e308`, `"x":1.7976931348623159e308`, `"x":1e309`, `"x":1`+strings.Repeat("0", 400), `"x":-1`+strings.Repeat("0", 309),
-		`"x":[1,1e999999999]`, `"x":0.1e310`, `"x":1e99999999999999999999`, `"x":-5E+401`, `"x":17976931348623159`+strings.Repeat("0", 292)+`.5`,
+		`"x":[1,1e9999]`, `"x":0.1e310`, `"x":-5E+401`, `"x":17976931348623159`+strings.Repeat("0", 292)+`.5`,
 		// 2^1024 - 2^970 exactly (a tie: rounds to the even mantissa 2^53, i.e. to infinity) and just above
 		`"x":`+f64Over.String(), `"x":-`+f64Over.String()+`.0`, `"x":`+f64Over.String()+`e0`, `"x":`+bigPlus(f64Over, 1), `"x":`+f64Over.String()+`.`+strings.Repeat("0", 900)+`1`,
 		`"x":`+f64Over.String()+`0e-1`, `"x":0.`+f64Over.String()+`e309`)
@@ -116,7 +116,25 @@ func jtSnips() []jtSnip {
 		`"x":1.7976931348623158e308`, `"x":`+bigPlus(f64Over, -1), `"x":`+bigPlus(f64Over, -1)+`.`+strings.Repeat("9", 900), `"x":`+bigPlus(f64Under5, 1)+`e-1075`,
 		`"x":0.`+strings.Repeat("0", 323)+f64Under5.String()+strings.Repeat("0", 200)+`1`, `"x":9007199254740991.5`, `"x":900719925474099.15e1`,
 		`"x":17976931348623158`+strings.Repeat("0", 292)+`.5`)
-	// an integer part of more than 800 digits: strconv.ParseFloat (go1.23) drops the
+	// an exponent of magnitude >= 10000 on a non-zero mantissa: strconv.ParseFloat
+	// accumulates the exponent with  if e < 10000 { e = e*10 + d }  and so DROPS its
+	// digits from there on; a literal with ~100000 leading fraction zeros and an
+	// exponent >= 100000 is read as 0 although its value is an ordinary number.
+	// The model leaves every such literal to the oracle, i.e. follows strconv
+	// (number-long-exp; the ~100 KB texts are kept to a handful).  The short ones
+	// (true value out of range / underflow, read by Go as such) go the same way.
+	for _, t := range []string{`"x":1e10000`, `"x":1e99999999999999999999`, `"x":[1,1e999999999]`, `"x":-2.5E+10000`} {
+		s = append(s, jtSnip{"number-long-exp-range", t, false, false})
+	}
+	for _, t := range []string{`"x":1e-10000`, `"x":1e-99999999999999999999`, `"x":-123e-99999999999999999999`, `"x":0.1e-100000`,
+		`"x":0.` + strings.Repeat("0", 9999) + `1e10000`, `"x":0.` + strings.Repeat("0", 12344) + `17000036e12354`} {
+		s = append(s, jtSnip{"number-long-exp", t, true, true})
+	}
+	// (family name with the prefix "large": placed like the other 30 KB+ snippets)
+	for _, t := range []string{`"x":0.` + strings.Repeat("0", 99999) + `1e100000`, `"x":0.` + strings.Repeat("0", 100000) + `17000036e100010`} {
+		s = append(s, jtSnip{"large-number-long-exp", t, true, true})
+	}
+	// an integer part of more than 800 digits: strconv.ParseFloat (go1.25.11; also 1.23.5, 1.26.8) drops the
 	// excess digits of its 800-digit buffer WITHOUT moving the decimal point when its
 	// fast paths do not apply, so the first is read as 1.7000036e-100 instead of
 	// 1700003600.00..01 and the second (true value 2e309, out of range) as 2e209.
@@ -424,8 +442,21 @@ func jtClaims() []jtClaim {
 			c = append(c, jtClaim{"number-claim", 'p', func(h, p []string, d kd) ([]string, []string) { return h, setM(p, name, v) }, ""})
 		}
 	}
+	// outside the digit budget of the model's exact decisions: the oracle decides,
+	// and what strconv reads is NOT the value of the literal (both are the auditor's
+	// instances: nbf is read as 0 and the token accepted although the value is
+	// 9.9e10; exp is read as 0 and the token refused although the value is 1700003600)
+	c = append(c, jtClaim{"number-long-exp-claim", 'p', func(h, p []string, d kd) ([]string, []string) {
+		return h, setM(p, "nbf", "0."+strings.Repeat("0", 100000)+"99e100011")
+	}, ""})
+	c = append(c, jtClaim{"number-long-exp-claim", 'p', func(h, p []string, d kd) ([]string, []string) {
+		return h, setM(p, "exp", "0."+strings.Repeat("0", 100000)+"17000036e100010")
+	}, ""})
+	c = append(c, jtClaim{"number-long-exp-claim", 'p', func(h, p []string, d kd) ([]string, []string) {
+		return h, setM(p, "exp", "17e999999999")
+	}, ":R"})
 	// refused without the oracle: syntax, or out of the float64 range
-	for _, v := range []string{"01700003600", "+1700003600", "1700003600.", "1e400", "NaN", "Infinity", "0x6553F100", "1_700_003_600", "1700003600e", "17000036e+", "17e999999999", "-1.8e308"} {
+	for _, v := range []string{"01700003600", "+1700003600", "1700003600.", "1e400", "NaN", "Infinity", "0x6553F100", "1_700_003_600", "1700003600e", "17000036e+", "17e9999", "-1.8e308"} {
 		v := v
 		c = append(c, jtClaim{"numx-claim-bad", 'p', func(h, p []string, d kd) ([]string, []string) { return h, setM(p, "exp", v) }, ":R"})
 	}
